@@ -3,6 +3,7 @@ From RP2V Require Import Base.Prelude Model.Entry Model.EntryL1.
 From RP2V Require Import Model.EntryJp.
 From RP2V Require Import Model.EntryFull.
 From RP2V Require Import Model.EntryL6.
+From RP2V Require Import Model.EntryOpenPos.
 Open Scope Z_scope.
 
 Definition entry (cmd : Z) (args : list Z) : list Z :=
@@ -31,4 +32,6 @@ Definition entry (cmd : Z) (args : list Z) : list Z :=
   if cmd =? 92 then entry_static args else
   if cmd =? 93 then entry_matrix args else
   if cmd =? 94 then entry_static_detail args else
+  if cmd =? 70 then entry_open_positions args else
+  if cmd =? 71 then entry_open_positions_first args else
   [-999].
